@@ -27,6 +27,9 @@ static Result run_codec(const Case &c) {
     else { own.reset(new Instance(g)); inp = own.get(); }
     Instance &in = *inp;
     if (!in.ok()) { r.fail("create refused a supported configuration rc=" + std::to_string(in.desc)); return r; }
+    int wenv = (int)c.get("wenv", 0);          // value of the legacy-CRC switch while the stripe is written / rebuilt
+    if (wenv) { setenv("LIBERASURECODE_WRITE_LEGACY_CRC", wenv == 1 ? "1" : wenv == 2 ? "0" : "yes", 1); r.cls("legacy_env_" + std::to_string(wenv)); }
+    struct EnvReset { ~EnvReset() { unsetenv("LIBERASURECODE_WRITE_LEGACY_CRC"); } } env_reset;
     Stripe s = encode(in.desc, g, data);
     if (s.rc != 0) { r.fail("encode failed rc=" + std::to_string(s.rc)); return r; }
     if (s.cleanup_rc != 0) { r.fail("encode_cleanup rc=" + std::to_string(s.cleanup_rc)); return r; }
@@ -211,6 +214,7 @@ static Case gen_c01() {
     c.set("decode", 1);
     c.setl("dests", {});
     c.set("pool", coin(1, 3) ? 1 : 0);
+    c.set("wenv", weighted({6, 2, 1, 1}));
     return c;
 }
 static Case gen_c02() {
@@ -269,6 +273,7 @@ static Case gen_c03() {
     }
     c.setv("dests", dests);
     c.set("pool", coin(1, 3) ? 1 : 0);
+    c.set("wenv", weighted({6, 2, 1, 1}));
     return c;
 }
 
